@@ -1,9 +1,870 @@
 package main
 
-// replayOnRealCode turns a concrete model into an in-package Go test and runs it
-// on the real package through `go test -overlay`.
-func replayOnRealCode(o *funcOutcome, r *Result, ps []probe) (bool, string, string) {
-	return false, "no replay generator for this obligation yet", ""
+import (
+	"bytes"
+	"context"
+	"encoding/json"
+	"fmt"
+	"go/types"
+	"os"
+	"os/exec"
+	"path/filepath"
+	"strconv"
+	"strings"
+	"time"
+
+	"golang.org/x/tools/go/ssa"
+)
+
+// Replay: a concrete model of a failed obligation is turned into an in-package
+// Go test that builds the model's inputs, calls the REAL function and evaluates
+// the executable twin of the function's postconditions (generated from the
+// contract text). The test is injected with `go test -overlay`; nothing is
+// written into the repository.
+
+type replayGen struct {
+	g      *Gen
+	vals   map[string]string // probe name -> model value
+	sb     strings.Builder   // statements building the inputs
+	objs   map[string]string // "Type#ref" -> variable
+	n      int
+	fail   string // why a replay could not be generated
+	olds   []string
+	helper map[string]bool
+	defs   map[string]string // generated Go twins of contract defines
+	tagTy  map[int]types.Type
 }
 
-func runReplayTest(src string) (bool, string) { return false, "" }
+type gx struct {
+	code string
+	so   string     // contract-level sort
+	ty   types.Type // Go type if known
+}
+
+func (rg *replayGen) bad(format string, a ...any) {
+	if rg.fail == "" {
+		rg.fail = fmt.Sprintf(format, a...)
+	}
+}
+
+func goTypeText(t types.Type) string {
+	return types.TypeString(t, func(p *types.Package) string {
+		if p.Name() == "kvql" {
+			return ""
+		}
+		return p.Name()
+	})
+}
+
+func smtInt(v string) (int64, bool) {
+	v = strings.TrimSpace(v)
+	if strings.HasPrefix(v, "(-") {
+		v = strings.TrimSpace(strings.TrimSuffix(strings.TrimPrefix(v, "(-"), ")"))
+		i, err := strconv.ParseInt(v, 10, 64)
+		return -i, err == nil
+	}
+	i, err := strconv.ParseInt(v, 10, 64)
+	return i, err == nil
+}
+
+// smtStr decodes an SMT-LIB string literal into the bytes it denotes.
+func smtStr(v string) (string, bool) {
+	v = strings.TrimSpace(v)
+	if len(v) < 2 || v[0] != '"' || v[len(v)-1] != '"' {
+		return "", false
+	}
+	v = v[1 : len(v)-1]
+	var out []byte
+	for i := 0; i < len(v); i++ {
+		switch {
+		case v[i] == '"' && i+1 < len(v) && v[i+1] == '"':
+			out = append(out, '"')
+			i++
+		case strings.HasPrefix(v[i:], `\u{`):
+			j := strings.Index(v[i:], "}")
+			c, err := strconv.ParseUint(v[i+3:i+j], 16, 32)
+			if err != nil || c > 255 {
+				return "", false
+			}
+			out = append(out, byte(c))
+			i += j
+		default:
+			out = append(out, v[i])
+		}
+	}
+	return string(out), true
+}
+
+func (rg *replayGen) val(name string) (string, bool) {
+	v, ok := rg.vals[name]
+	return v, ok
+}
+
+// build returns a Go expression for the model's value of the probe `name` of type ty.
+func (rg *replayGen) build(name string, ty types.Type, depth int) string {
+	g := rg.g
+	if depth > 6 {
+		rg.bad("model too deep at %s", name)
+		return "nil"
+	}
+	switch u := ty.Underlying().(type) {
+	case *types.Basic:
+		switch {
+		case u.Info()&types.IsBoolean != 0:
+			v, _ := rg.val(name)
+			return fmt.Sprintf("%s(%v)", goTypeText(ty), v == "true")
+		case u.Info()&types.IsInteger != 0:
+			v, ok := rg.val(name)
+			i, ok2 := smtInt(v)
+			if !ok || !ok2 {
+				rg.bad("no integer value for %s", name)
+				return "0"
+			}
+			return fmt.Sprintf("%s(%d)", goTypeText(ty), i)
+		case u.Info()&types.IsString != 0:
+			v, _ := rg.val(name + ".val")
+			s, ok := smtStr(v)
+			if !ok {
+				rg.bad("no string value for %s", name)
+			}
+			return fmt.Sprintf("%s(%q)", goTypeText(ty), s)
+		case u.Info()&types.IsFloat != 0:
+			rg.bad("float input %s", name)
+			return "0"
+		}
+	case *types.Slice:
+		if isByteSlice(ty) {
+			if v, _ := rg.val(name + ".isnil"); v == "true" {
+				return "[]byte(nil)"
+			}
+			v, _ := rg.val(name + ".val")
+			s, ok := smtStr(v)
+			if !ok {
+				rg.bad("no bytes value for %s", name)
+			}
+			return fmt.Sprintf("[]byte(%q)", s)
+		}
+		if v, _ := rg.val(name + ".nil"); v == "true" {
+			return goTypeText(ty) + "(nil)"
+		}
+		lv, _ := rg.val(name + ".len")
+		n, ok := smtInt(lv)
+		if !ok || n < 0 || n > maxProbeElems {
+			rg.bad("slice %s has length %s in the model (replay builds at most %d elements)", name, lv, maxProbeElems)
+			return "nil"
+		}
+		var es []string
+		for i := int64(0); i < n; i++ {
+			es = append(es, rg.build(fmt.Sprintf("%s[%d]", name, i), u.Elem(), depth+1))
+		}
+		return goTypeText(ty) + "{" + strings.Join(es, ", ") + "}"
+	case *types.Pointer:
+		v, ok := rg.val(name)
+		ref, ok2 := smtInt(v)
+		if !ok || !ok2 {
+			rg.bad("no reference value for %s", name)
+			return "nil"
+		}
+		if ref == 0 {
+			return "(" + goTypeText(ty) + ")(nil)"
+		}
+		st, isStruct := u.Elem().Underlying().(*types.Struct)
+		if !isStruct {
+			rg.bad("pointer to non-struct input %s", name)
+			return "nil"
+		}
+		key := fmt.Sprintf("%s#%d", goTypeText(u.Elem()), ref)
+		if v, ok := rg.objs[key]; ok {
+			return v
+		}
+		rg.n++
+		vn := fmt.Sprintf("obj%d", rg.n)
+		rg.objs[key] = vn
+		fmt.Fprintf(&rg.sb, "\t%s := &%s{}\n", vn, goTypeText(u.Elem()))
+		for i := 0; i < st.NumFields(); i++ {
+			f := st.Field(i)
+			if _, ok := rg.val(name + "." + f.Name()); !ok && !rg.hasPrefix(name+"."+f.Name()) {
+				continue // field not read by the verified code: leave it zero
+			}
+			if unsupportedInput(f.Type()) {
+				continue
+			}
+			fmt.Fprintf(&rg.sb, "\t%s.%s = %s\n", vn, f.Name(), rg.build(name+"."+f.Name(), f.Type(), depth+1))
+		}
+		return vn
+	case *types.Struct:
+		var fs []string
+		for i := 0; i < u.NumFields(); i++ {
+			f := u.Field(i)
+			if unsupportedInput(f.Type()) || !rg.hasPrefix(name+"."+f.Name()) {
+				continue
+			}
+			fs = append(fs, f.Name()+": "+rg.build(name+"."+f.Name(), f.Type(), depth+1))
+		}
+		return goTypeText(ty) + "{" + strings.Join(fs, ", ") + "}"
+	case *types.Interface:
+		if u.NumMethods() == 0 {
+			rg.bad("input %s of type any", name)
+			return "nil"
+		}
+		v, ok := rg.val(name)
+		ref, ok2 := smtInt(v)
+		if !ok || !ok2 {
+			rg.bad("no reference value for %s", name)
+			return "nil"
+		}
+		if ref == 0 {
+			return goTypeText(ty) + "(nil)"
+		}
+		dv, _ := rg.val(name + ".dyn")
+		tag, _ := smtInt(dv)
+		dt := rg.tagTy[int(tag)]
+		if dt == nil {
+			rg.bad("interface input %s has a dynamic type outside the package's known types (tag %d)", name, tag)
+			return "nil"
+		}
+		if !types.Implements(dt, u) {
+			rg.bad("model gives %s the dynamic type %s, which does not implement %s (spurious model)", name, dt, ty)
+			return "nil"
+		}
+		return goTypeText(ty) + "(" + rg.build(name+".("+goTypeText(dt)+")", dt, depth+1) + ")"
+	}
+	_ = g
+	rg.bad("input %s of unsupported type %s", name, ty)
+	return "nil"
+}
+
+func (rg *replayGen) hasPrefix(p string) bool {
+	for k := range rg.vals {
+		if k == p || strings.HasPrefix(k, p+".") || strings.HasPrefix(k, p+"[") {
+			return true
+		}
+	}
+	return false
+}
+
+func unsupportedInput(t types.Type) bool {
+	switch u := t.Underlying().(type) {
+	case *types.Signature, *types.Chan, *types.Map:
+		return true
+	case *types.Interface:
+		return u.NumMethods() == 0
+	}
+	return false
+}
+
+// ---------- contract expression -> Go ----------
+
+func goSortType(so string) string {
+	switch so {
+	case "Bool":
+		return "bool"
+	case "Int":
+		return "int"
+	case "B":
+		return "string"
+	case "NB":
+		return "[]byte"
+	}
+	return ""
+}
+
+type goEnv struct {
+	rg   *replayGen
+	vars map[string]gx
+	old  bool
+}
+
+func (e *goEnv) str(x gx) string { // as Go string (byte content)
+	switch x.so {
+	case "B":
+		return x.code
+	case "NB":
+		return "string(" + x.code + ")"
+	}
+	e.rg.bad("value %s is not a byte string", x.code)
+	return `""`
+}
+
+func (e *goEnv) tr(x *CE) gx {
+	rg := e.rg
+	g := rg.g
+	switch x.Op {
+	case "num":
+		return gx{x.Name, "Int", nil}
+	case "str":
+		return gx{strconv.Quote(x.Name), "B", nil}
+	case "ident":
+		switch x.Name {
+		case "true", "false":
+			return gx{x.Name, "Bool", nil}
+		case "nil":
+			return gx{"nil", "Nil", nil}
+		case "eps":
+			return gx{`""`, "B", nil}
+		}
+		if v, ok := e.vars[x.Name]; ok {
+			return v
+		}
+		if o := g.P.Pkg.Types.Scope().Lookup(x.Name); o != nil {
+			switch o := o.(type) {
+			case *types.Const:
+				return gx{x.Name, g.sortOf(o.Type()), o.Type()}
+			case *types.Var:
+				return gx{x.Name, g.sortOf(o.Type()), o.Type()}
+			}
+		}
+		rg.bad("replay: unknown identifier %s", x.Name)
+		return gx{"nil", "Int", nil}
+	case "old":
+		n := *e
+		n.old = true
+		v := n.tr(x.Args[0])
+		name := fmt.Sprintf("old%d", len(rg.olds))
+		rg.olds = append(rg.olds, fmt.Sprintf("%s := %s", name, v.code))
+		v.code = name
+		return v
+	case "field":
+		b := e.tr(x.Args[0])
+		if b.ty == nil {
+			rg.bad("replay: field of untyped value")
+			return gx{"nil", "Int", nil}
+		}
+		var st *types.Struct
+		if pt, ok := b.ty.Underlying().(*types.Pointer); ok {
+			st, _ = pt.Elem().Underlying().(*types.Struct)
+		} else {
+			st, _ = b.ty.Underlying().(*types.Struct)
+		}
+		for i := 0; st != nil && i < st.NumFields(); i++ {
+			if st.Field(i).Name() == x.Name {
+				ft := st.Field(i).Type()
+				return gx{b.code + "." + x.Name, g.sortOf(ft), ft}
+			}
+		}
+		rg.bad("replay: no field %s", x.Name)
+		return gx{"nil", "Int", nil}
+	case "index":
+		b, i := e.tr(x.Args[0]), e.tr(x.Args[1])
+		if b.ty != nil {
+			switch u := b.ty.Underlying().(type) {
+			case *types.Slice:
+				return gx{b.code + "[" + i.code + "]", g.sortOf(u.Elem()), u.Elem()}
+			case *types.Map:
+				k := i.code
+				if g.sortOf(u.Key()) == "NB" {
+					k = goTypeText(u.Key()) + "(" + e.str(i) + ")"
+				}
+				return gx{b.code + "[" + k + "]", g.sortOf(u.Elem()), u.Elem()}
+			}
+		}
+		rg.bad("replay: index of %s", b.code)
+		return gx{"nil", "Int", nil}
+	case "cast":
+		b := e.tr(x.Args[0])
+		ty, so := g.resolveType(x.Name)
+		return gx{b.code + ".(" + goTypeText(ty) + ")", so, ty}
+	case "un":
+		a := e.tr(x.Args[0])
+		if x.Name == "!" {
+			return gx{"!(" + a.code + ")", "Bool", nil}
+		}
+		return gx{"-(" + a.code + ")", "Int", a.ty}
+	case "bin":
+		return e.bin(x)
+	case "call":
+		return e.call(x)
+	case "forall", "exists":
+		return e.quant(x)
+	}
+	rg.bad("replay: unsupported contract construct %s", x.Op)
+	return gx{"false", "Bool", nil}
+}
+
+func (e *goEnv) bin(x *CE) gx {
+	op := x.Name
+	a := e.tr(x.Args[0])
+	b := e.tr(x.Args[1])
+	switch op {
+	case "&&", "||":
+		return gx{"(" + a.code + " " + op + " " + b.code + ")", "Bool", nil}
+	case "==>":
+		return gx{"(!(" + a.code + ") || " + b.code + ")", "Bool", nil}
+	case "<==>":
+		return gx{"((" + a.code + ") == (" + b.code + "))", "Bool", nil}
+	case "==", "!=":
+		var c string
+		switch {
+		case a.so == "Nil" && b.so == "Nil":
+			c = "true"
+		case b.so == "Nil":
+			c = "(" + a.code + " == nil)"
+		case a.so == "Nil":
+			c = "(" + b.code + " == nil)"
+		case a.so == "NB" || a.so == "B" || b.so == "NB" || b.so == "B":
+			c = "(" + e.str(a) + " == " + e.str(b) + ")"
+		default:
+			c = "(" + a.code + " == " + b.code + ")"
+			if a.so == "Int" && b.so == "Int" {
+				c = "(int64(" + a.code + ") == int64(" + b.code + "))"
+			}
+		}
+		if op == "!=" {
+			c = "!" + c
+		}
+		return gx{c, "Bool", nil}
+	case "<", "<=", ">", ">=":
+		if a.so == "NB" || a.so == "B" || b.so == "NB" || b.so == "B" {
+			return gx{"(" + e.str(a) + " " + op + " " + e.str(b) + ")", "Bool", nil}
+		}
+		return gx{"(int64(" + a.code + ") " + op + " int64(" + b.code + "))", "Bool", nil}
+	case "+", "-", "*", "/", "%":
+		if a.so == "NB" || a.so == "B" {
+			return gx{"(" + e.str(a) + " + " + e.str(b) + ")", "B", nil}
+		}
+		return gx{"(int(" + a.code + ") " + op + " int(" + b.code + "))", "Int", nil}
+	}
+	e.rg.bad("replay: operator %s", op)
+	return gx{"false", "Bool", nil}
+}
+
+func (e *goEnv) quant(x *CE) gx {
+	rg := e.rg
+	if len(x.Vars) != 1 {
+		rg.bad("replay: quantifier with several binders")
+		return gx{"false", "Bool", nil}
+	}
+	iv := x.Vars[0].Name
+	_, so := rg.g.resolveType(x.Vars[0].Sort)
+	if so != "Int" {
+		rg.bad("replay: quantifier over %s is not executable", so)
+		return gx{"false", "Bool", nil}
+	}
+	// forall i :: 0 <= i && i < N ==> P        exists i :: 0 <= i && i < N && P
+	var lo, hi, body *CE
+	b := x.Args[0]
+	if x.Op == "forall" && b.Op == "bin" && b.Name == "==>" {
+		g := b.Args[0]
+		if g.Op == "bin" && g.Name == "&&" {
+			lo, hi, body = g.Args[0], g.Args[1], b.Args[1]
+		}
+	}
+	if x.Op == "exists" {
+		var conj []*CE
+		var flat func(c *CE)
+		flat = func(c *CE) {
+			if c.Op == "bin" && c.Name == "&&" {
+				flat(c.Args[0])
+				flat(c.Args[1])
+				return
+			}
+			conj = append(conj, c)
+		}
+		flat(b)
+		if len(conj) >= 3 {
+			lo, hi = conj[0], conj[1]
+			body = conj[2]
+			for _, c := range conj[3:] {
+				body = &CE{Op: "bin", Name: "&&", Args: []*CE{body, c}}
+			}
+		}
+	}
+	if lo == nil || !(lo.Op == "bin" && lo.Name == "<=" && lo.Args[1].Op == "ident" && lo.Args[1].Name == iv) || !(hi.Op == "bin" && hi.Name == "<" && hi.Args[0].Op == "ident" && hi.Args[0].Name == iv) {
+		rg.bad("replay: quantifier without an explicit finite range is not executable")
+		return gx{"false", "Bool", nil}
+	}
+	l, h := e.tr(lo.Args[0]), e.tr(hi.Args[1])
+	n := *e
+	n.vars = map[string]gx{}
+	for k, v := range e.vars {
+		n.vars[k] = v
+	}
+	n.vars[iv] = gx{iv, "Int", nil}
+	p := n.tr(body)
+	if x.Op == "forall" {
+		return gx{fmt.Sprintf("func() bool { for %s := int(%s); %s < int(%s); %s++ { if !(%s) { return false } }; return true }()", iv, l.code, iv, h.code, iv, p.code), "Bool", nil}
+	}
+	return gx{fmt.Sprintf("func() bool { for %s := int(%s); %s < int(%s); %s++ { if %s { return true } }; return false }()", iv, l.code, iv, h.code, iv, p.code), "Bool", nil}
+}
+
+func (e *goEnv) call(x *CE) gx {
+	rg := e.rg
+	g := rg.g
+	name := x.Args[0].Name
+	args := x.Args[1:]
+	a := func(i int) gx { return e.tr(args[i]) }
+	switch name {
+	case "len":
+		v := a(0)
+		return gx{"len(" + v.code + ")", "Int", nil}
+	case "isnil":
+		return gx{"(" + a(0).code + " == nil)", "Bool", nil}
+	case "val":
+		return gx{e.str(a(0)), "B", nil}
+	case "pre":
+		return gx{"strings.HasPrefix(" + e.str(a(1)) + ", " + e.str(a(0)) + ")", "Bool", nil}
+	case "le":
+		return gx{"(" + e.str(a(0)) + " <= " + e.str(a(1)) + ")", "Bool", nil}
+	case "lt":
+		return gx{"(" + e.str(a(0)) + " < " + e.str(a(1)) + ")", "Bool", nil}
+	case "cat":
+		return gx{"(" + e.str(a(0)) + " + " + e.str(a(1)) + ")", "B", nil}
+	case "blen":
+		return gx{"len(" + e.str(a(0)) + ")", "Int", nil}
+	case "ite":
+		c, t, f := a(0), a(1), a(2)
+		gt := goSortType(t.so)
+		if t.ty != nil {
+			gt = goTypeText(t.ty)
+		}
+		if gt == "" {
+			rg.bad("replay: ite of sort %s", t.so)
+			return gx{"false", "Bool", nil}
+		}
+		return gx{fmt.Sprintf("func() %s { if %s { return %s }; return %s }()", gt, c.code, t.code, f.code), t.so, t.ty}
+	case "member":
+		s, n, k := a(0), a(1), a(2)
+		rg.helper["member"] = true
+		return gx{"kvcMember(" + s.code + ", int(" + n.code + "), " + e.str(k) + ")", "Bool", nil}
+	case "is":
+		v := a(0)
+		ty, _ := g.resolveType(args[1].Name)
+		return gx{"func() bool { _, ok := any(" + v.code + ").(" + goTypeText(ty) + "); return ok }()", "Bool", nil}
+	case "as":
+		v := a(0)
+		ty, so := g.resolveType(args[1].Name)
+		return gx{"any(" + v.code + ").(" + goTypeText(ty) + ")", so, ty}
+	case "has":
+		m, k := a(0), a(1)
+		mt, ok := m.ty.Underlying().(*types.Map)
+		if !ok {
+			break
+		}
+		kc := k.code
+		if g.sortOf(mt.Key()) == "NB" {
+			kc = goTypeText(mt.Key()) + "(" + e.str(k) + ")"
+		}
+		return gx{"func() bool { _, ok := " + m.code + "[" + kc + "]; return ok }()", "Bool", nil}
+	}
+	if d, ok := g.Specs.Defines[name]; ok {
+		fn := rg.defineTwin(d)
+		var as []string
+		for i, p := range d.Params {
+			v := a(i)
+			_, so := g.resolveType(p.Type)
+			if so == "B" {
+				as = append(as, e.str(v))
+			} else {
+				as = append(as, v.code)
+			}
+		}
+		ty, so := g.resolveType(defRet(d))
+		return gx{fn + "(" + strings.Join(as, ", ") + ")", so, ty}
+	}
+	if _, ok := g.Specs.SpecFuns[name]; ok {
+		// an uninterpreted spec function needs a hand-written executable twin (replay/twins.go.txt)
+		if replayTwins[name] {
+			var as []string
+			for i := range args {
+				v := a(i)
+				if v.so == "NB" || v.so == "B" {
+					as = append(as, e.str(v))
+				} else {
+					as = append(as, v.code)
+				}
+			}
+			sf := g.Specs.SpecFuns[name]
+			return gx{"kvcSpec_" + name + "(" + strings.Join(as, ", ") + ")", sf.Ret, nil}
+		}
+	}
+	if fn, ok := g.P.Funcs[name]; ok {
+		var as []string
+		for i := range args {
+			as = append(as, a(i).code)
+		}
+		rt := fn.Signature.Results().At(0).Type()
+		return gx{name + "(" + strings.Join(as, ", ") + ")", g.sortOf(rt), rt}
+	}
+	rg.bad("replay: %s() has no executable twin", name)
+	return gx{"false", "Bool", nil}
+}
+
+func defRet(d *FuncSpec) string {
+	if d.RetSort != "" {
+		return d.RetSort
+	}
+	return "Bool"
+}
+
+// defineTwin emits a Go function for a contract define (once).
+func (rg *replayGen) defineTwin(d *FuncSpec) string {
+	fn := "kvcDef_" + d.Key
+	if _, ok := rg.defs[d.Key]; ok {
+		return fn
+	}
+	rg.defs[d.Key] = "" // reserve
+	g := rg.g
+	vars := map[string]gx{}
+	var ps []string
+	for _, p := range d.Params {
+		ty, so := g.resolveType(p.Type)
+		gt := goSortType(so)
+		if ty != nil {
+			gt = goTypeText(ty)
+		}
+		if gt == "" {
+			rg.bad("replay: define %s has a parameter of sort %s", d.Key, so)
+			gt = "int"
+		}
+		ps = append(ps, p.Name+" "+gt)
+		vars[p.Name] = gx{p.Name, so, ty}
+	}
+	rty, rso := g.resolveType(defRet(d))
+	rt := goSortType(rso)
+	if rty != nil {
+		rt = goTypeText(rty)
+	}
+	body := (&goEnv{rg: rg, vars: vars}).tr(d.Body)
+	code := body.code
+	if rso == "B" {
+		code = (&goEnv{rg: rg}).str(body)
+	}
+	rg.defs[d.Key] = fmt.Sprintf("func %s(%s) %s { return %s }\n", fn, strings.Join(ps, ", "), rt, code)
+	return fn
+}
+
+// replayTwins lists the uninterpreted spec functions that have a hand-written
+// executable twin in /verif/replay/twins.go.txt.
+var replayTwins = map[string]bool{"holds": true}
+
+const maxProbeElems = 4
+
+// ---------- assembling and running the test ----------
+
+func replayOnRealCode(o *funcOutcome, r *Result, ps []probe) (confirmed bool, transcript, src string) {
+	defer func() {
+		if rec := recover(); rec != nil {
+			if ee, ok := rec.(engineErr); ok {
+				confirmed, transcript = false, "replay generator: "+ee.msg
+				return
+			}
+			panic(rec)
+		}
+	}()
+	g := o.Gen
+	fn := g.P.Funcs[o.Key]
+	if fn == nil {
+		return false, "no function to replay", ""
+	}
+	rg := &replayGen{g: g, vals: map[string]string{}, objs: map[string]string{}, helper: map[string]bool{}, defs: map[string]string{}, tagTy: map[int]types.Type{}}
+	for _, p := range ps {
+		rg.vals[p.Name] = p.Val
+	}
+	rg.tagTy = g.tagTypes()
+	fs := o.Spec
+	vars := map[string]gx{}
+	var callArgs []string
+	for k, p := range fn.Params {
+		name := fs.Params[k].Name
+		if unsupportedInput(p.Type()) {
+			rg.bad("parameter %s of type %s cannot be built from a model", name, p.Type())
+		}
+		code := rg.build(name, p.Type(), 0)
+		vn := "p_" + sanitize(name)
+		fmt.Fprintf(&rg.sb, "\tvar %s %s = %s\n", vn, goTypeText(p.Type()), code)
+		vars[name] = gx{vn, g.sortOf(p.Type()), p.Type()}
+		callArgs = append(callArgs, vn)
+	}
+	_, ens, _, ghosts, rename := g.clauses(fs)
+	for _, gp := range ghosts {
+		ty, so := g.resolveType(gp.Sort)
+		vn := "g_" + sanitize(gp.Name)
+		switch {
+		case so == "B":
+			v, _ := rg.val("ghost " + gp.Name)
+			s, ok := smtStr(v)
+			if !ok {
+				rg.bad("no model value for ghost %s", gp.Name)
+			}
+			fmt.Fprintf(&rg.sb, "\t%s := %q\n", vn, s)
+		case so == "Int" && ty == nil:
+			v, _ := rg.val("ghost " + gp.Name)
+			i, _ := smtInt(v)
+			fmt.Fprintf(&rg.sb, "\t%s := %d\n", vn, i)
+		case ty != nil:
+			fmt.Fprintf(&rg.sb, "\tvar %s %s = %s\n", vn, goTypeText(ty), rg.build("ghost "+gp.Name, ty, 0))
+		default:
+			rg.bad("ghost %s of sort %s", gp.Name, so)
+		}
+		fmt.Fprintf(&rg.sb, "\t_ = %s\n", vn)
+		vars[gp.Name] = gx{vn, so, ty}
+	}
+	// globals the verified code reads
+	var restore strings.Builder
+	for _, p := range ps {
+		if strings.HasPrefix(p.Name, "G.") {
+			gn := strings.TrimPrefix(p.Name, "G.")
+			if i, ok := smtInt(p.Val); ok && p.Sort == "Int" {
+				fmt.Fprintf(&rg.sb, "\tsaved_%s := %s\n\t%s = %d\n", gn, gn, gn, i)
+				fmt.Fprintf(&restore, "\t\t%s = saved_%s\n", gn, gn)
+			} else if p.Sort == "Bool" {
+				fmt.Fprintf(&rg.sb, "\tsaved_%s := %s\n\t%s = %s\n", gn, gn, gn, p.Val)
+				fmt.Fprintf(&restore, "\t\t%s = saved_%s\n", gn, gn)
+			}
+		}
+	}
+	// the call
+	names := g.resultNames(fs, fn.Signature.Results().Len())
+	var lhs []string
+	for k, nm := range names {
+		vn := "r_" + sanitize(nm)
+		lhs = append(lhs, vn)
+		rt := fn.Signature.Results().At(k).Type()
+		vars[nm] = gx{vn, g.sortOf(rt), rt}
+	}
+	for ifn, own := range rename {
+		if v, ok := vars[own]; ok {
+			if _, clash := vars[ifn]; !clash {
+				vars[ifn] = v
+			}
+		}
+	}
+	call := ""
+	if fn.Signature.Recv() != nil {
+		call = callArgs[0] + "." + fn.Name() + "(" + strings.Join(callArgs[1:], ", ") + ")"
+	} else {
+		call = fn.Name() + "(" + strings.Join(callArgs, ", ") + ")"
+	}
+	// which clauses to evaluate: the failed one for an ensures obligation, all of them otherwise
+	var checks []string
+	env := &goEnv{rg: rg, vars: vars}
+	isPanic := strings.HasPrefix(r.Ob.Kind, "panic")
+	for k, c := range ens {
+		lbl := clauseLabel(c, k)
+		if r.Ob.Kind == "ensures" && !strings.Contains(r.Ob.Name, "#ensures."+lbl+"@") {
+			continue
+		}
+		saved := rg.fail
+		v := env.tr(c.E)
+		if rg.fail != saved {
+			// this clause has no executable twin: skip it (for the failed clause itself that ends the replay)
+			if r.Ob.Kind == "ensures" {
+				break
+			}
+			rg.fail = saved
+			continue
+		}
+		checks = append(checks, fmt.Sprintf("\tif !(%s) {\n\t\tfmt.Println(\"REPLAY: postcondition violated: %s\")\n\t\tviolated = true\n\t}\n", v.code, strings.ReplaceAll(strconv.Quote(c.Text), `"`, "")))
+	}
+	if rg.fail != "" {
+		return false, "replay not generated: " + rg.fail, ""
+	}
+	if len(checks) == 0 && !isPanic {
+		return false, "replay not generated: no clause of this contract has an executable twin", ""
+	}
+	var t strings.Builder
+	t.WriteString("package kvql\n\nimport (\n\t\"fmt\"\n\t\"strings\"\n\t\"testing\"\n)\n\nvar _ = strings.HasPrefix\n\n")
+	t.WriteString("// generated by kvc from the model of " + r.Ob.Name + "\n")
+	t.WriteString("func TestKvcReplay(t *testing.T) {\n")
+	t.WriteString(rg.sb.String())
+	for _, o := range rg.olds {
+		t.WriteString("\t" + o + "\n")
+	}
+	t.WriteString("\tviolated := false\n")
+	t.WriteString("\tfunc() {\n\t\tdefer func() {\n" + restore.String() + "\t\t\tif rec := recover(); rec != nil {\n\t\t\t\tfmt.Printf(\"REPLAY: the real function panicked: %v\\n\", rec)\n\t\t\t\tviolated = true\n\t\t\t\tpanicked = true\n\t\t\t}\n\t\t}()\n")
+	if len(lhs) > 0 {
+		t.WriteString("\t\t" + strings.Join(lhs, ", ") + " = " + call + "\n")
+	} else {
+		t.WriteString("\t\t" + call + "\n")
+	}
+	t.WriteString("\t}()\n")
+	t.WriteString("\tif !panicked {\n")
+	for _, c := range checks {
+		t.WriteString(strings.ReplaceAll(c, "\n\t", "\n\t\t"))
+	}
+	t.WriteString("\t}\n")
+	t.WriteString("\tif violated {\n\t\tfmt.Println(\"REPLAY-CONFIRMED\")\n\t} else {\n\t\tfmt.Println(\"REPLAY-NOT-CONFIRMED\")\n\t}\n}\n\n")
+	// result variables are declared at package level so the deferred recover can see partial state
+	var decl strings.Builder
+	decl.WriteString("var panicked bool\n")
+	for k, vn := range lhs {
+		decl.WriteString("var " + vn + " " + goTypeText(fn.Signature.Results().At(k).Type()) + "\n")
+	}
+	t.WriteString(decl.String())
+	for _, n := range sortedKeys(rg.defs) {
+		t.WriteString(rg.defs[n])
+	}
+	if rg.helper["member"] {
+		t.WriteString("func kvcMember[T ~string | ~[]byte](s []T, n int, k string) bool {\n\tfor i := 0; i < n && i < len(s); i++ {\n\t\tif string(s[i]) == k {\n\t\t\treturn true\n\t\t}\n\t}\n\treturn false\n}\n")
+	}
+	src = t.String()
+	ok, out := runReplayTest(src)
+	return ok, out, src
+}
+
+func (g *Gen) tagTypes() map[int]types.Type {
+	// tags are numbered by sorted type name (see tagDecls); recover the types by name
+	var ns []string
+	for n := range g.tags {
+		ns = append(ns, n)
+	}
+	sortStrings(ns)
+	out := map[int]types.Type{}
+	for i, n := range ns {
+		if strings.HasPrefix(n, "*") {
+			if o := g.P.Pkg.Types.Scope().Lookup(n[1:]); o != nil {
+				if tn, ok := o.(*types.TypeName); ok {
+					out[i+1] = types.NewPointer(tn.Type())
+				}
+			}
+		}
+	}
+	return out
+}
+
+func sortStrings(s []string) {
+	for i := 1; i < len(s); i++ {
+		for j := i; j > 0 && s[j] < s[j-1]; j-- {
+			s[j], s[j-1] = s[j-1], s[j]
+		}
+	}
+}
+
+// runReplayTest injects the test into the real package with -overlay and runs it.
+func runReplayTest(src string) (bool, string) {
+	dir, err := os.MkdirTemp(filepath.Join(verifDir(), "out"), "replay-")
+	if err != nil {
+		os.MkdirAll(filepath.Join(verifDir(), "out"), 0o755)
+		dir, err = os.MkdirTemp(filepath.Join(verifDir(), "out"), "replay-")
+		if err != nil {
+			return false, err.Error()
+		}
+	}
+	defer os.RemoveAll(dir)
+	tf := filepath.Join(dir, "kvc_replay_test.go")
+	os.WriteFile(tf, []byte(src), 0o644)
+	repl := map[string]string{filepath.Join(repoDir(), "kvc_replay_test.go"): tf}
+	for _, h := range []string{"memstore.go.txt", "twins.go.txt"} {
+		hp := filepath.Join(verifDir(), "replay", h)
+		if _, err := os.Stat(hp); err == nil {
+			repl[filepath.Join(repoDir(), "kvc_"+strings.TrimSuffix(h, ".go.txt")+"_test.go")] = hp
+		}
+	}
+	ov, _ := json.Marshal(map[string]any{"Replace": repl})
+	ovf := filepath.Join(dir, "overlay.json")
+	os.WriteFile(ovf, ov, 0o644)
+	ctx, cancel := context.WithTimeout(context.Background(), 120*time.Second)
+	defer cancel()
+	cmd := exec.CommandContext(ctx, "bash", "-c", "cd "+repoDir()+" && go test -mod=mod -overlay "+ovf+" -vet=off -count=1 -timeout 60s -v -run '^TestKvcReplay$' .")
+	cmd.Env = append(os.Environ(), "GOFLAGS=-mod=mod", "GOPROXY=off", "GOSUMDB=off", "GOTOOLCHAIN=local")
+	var out bytes.Buffer
+	cmd.Stdout, cmd.Stderr = &out, &out
+	cmd.Run()
+	o := out.String()
+	if len(o) > 6000 {
+		o = o[:6000] + "\n...[truncated]"
+	}
+	return strings.Contains(o, "REPLAY-CONFIRMED"), o
+}
+
+var _ = ssa.NaiveForm
